@@ -3,6 +3,7 @@
    Every event is one execution: the module graphs were extracted from the real objects (Debug
    tree + RefSites table) before and after the call.
      merge    A, B, R         -> MergeOK (C08), RefsFollow (C09)
+     sysconst A, B, R         -> SysConstOK (C08): the SYSTEM_CONSTANT lists of MOD_PAR
      cleanup  G, R, R2        -> CleanupOK, CleanupIdempotent (C10)
      check    G, reports, thisOk -> CheckOK (C11)
    The events are independent; a failing event prints <<"FAILED", conjunct>> lines followed by
@@ -21,8 +22,19 @@ AsSet3(s) == {<<s[i][1], s[i][2], s[i][3]>> : i \in 1..Len(s)}
 Count(s, x) == Cardinality({i \in 1..Len(s) : s[i] = x})
 NoDup(s) == \A i \in 1..Len(s) : Count(s, s[i]) = 1
 NoNewDuplicates(A, B, R) == Chk("NoDuplicateMembers", (NoDup(A.refs) /\ NoDup(B.refs)) => NoDup(R.refs))
+\* SYSTEM_CONSTANTs of MOD_PAR are a name-keyed list without renaming: A's constants stay (same order), every name
+\* of B is present afterwards, nothing is invented and no name occurs twice
+PairsOf(s) == {<<s[i][1], s[i][2]>> : i \in 1..Len(s)}
+NamesOf(s) == {s[i][1] : i \in 1..Len(s)}
+NamesUnique(s) == \A i, j \in 1..Len(s) : s[i][1] = s[j][1] => i = j
+SysConstOK(A, B, R) ==
+    /\ Chk("SysConstKeepsA", Len(R) >= Len(A) /\ \A i \in 1..Len(A) : R[i] = A[i])
+    /\ Chk("SysConstRepresentsB", NamesOf(B) \subseteq NamesOf(R))
+    /\ Chk("SysConstNothingInvented", PairsOf(R) \subseteq PairsOf(A) \cup PairsOf(B))
+    /\ Chk("SysConstNamesUnique", (NamesUnique(A) /\ NamesUnique(B)) => NamesUnique(R))
 Verdict(ev) ==
-    CASE ev.ev = "merge" ->
+    CASE ev.ev = "sysconst" -> SysConstOK(ev.A, ev.B, ev.R)
+      [] ev.ev = "merge" ->
             /\ ("C08" \in Judge => MergeOK(ev.A, ev.B, ev.R) /\ NoNewDuplicates(ev.A, ev.B, ev.R))
             /\ ("C09" \in Judge => RefsFollow(ev.A, ev.B, ev.R))
       [] ev.ev = "cleanup" ->
